@@ -16,6 +16,7 @@ from __future__ import annotations
 import ast
 from typing import Any, Dict, List, Optional, Set
 
+from engine.srcmatch import U
 from engine.forms import FOLDED, SEP_TERMINATED, SLASHED, FormEnv
 from engine.model import AnalysisError, Program, dotted, walk_no_nested
 
@@ -54,7 +55,7 @@ def run(ctx: Any, prog: Program) -> None:
                     key_expr = n.value.key
         if key_form is None:
             raise AnalysisError(f'{cls}.__init__: index {index} is not built by a dict comprehension')
-        ctx.check('C19.H1', FOLDED in key_form and SLASHED in key_form, fs, key_expr, f'{cls}: index keys `{ast.unparse(key_expr)}` must be casefolded with forward slashes (form {sorted(key_form)})',
+        ctx.check('C19.H1', FOLDED in key_form and SLASHED in key_form, fs, key_expr, f'{cls}: index keys `{U(key_expr)}` must be casefolded with forward slashes (form {sorted(key_form)})',
                   func=f'{cls}.__init__', text=f'{cls} index key form')
         clean = 'CLEAN' in key_form
         # lookups
@@ -80,14 +81,14 @@ def run(ctx: Any, prog: Program) -> None:
                 if delegates:
                     ctx.check('C19.H1', True, fs, delegates[0], f'{cls}.{mname} delegates to {dotted(delegates[0].func)}', func=f'{cls}.{mname}', text=f'{cls}.{mname} lookup key form')
                 elif other:
-                    ctx.check('C19.H1', False, fs, other[0], f'{cls}.{mname} answers from `{ast.unparse(other[0])[:70]}` instead of the folded index self.{index}: the wrapped container compares names by its own rules, '
+                    ctx.check('C19.H1', False, fs, other[0], f'{cls}.{mname} answers from `{U(other[0])[:70]}` instead of the folded index self.{index}: the wrapped container compares names by its own rules, '
                               'so spellings differing in case (or slash style) stop resolving alike across the backends', func=f'{cls}.{mname}', text=f'{cls}.{mname} lookup key form')
                 else:
                     ctx.shape('C19.H1', False, fs, fn, f'{cls}.{mname} does not consult self.{index}', func=f'{cls}.{mname}', text=f'{cls}.{mname} lookup key form')
             for node, kexpr in sites:
                 form = env.form(kexpr)
                 ok = FOLDED in form and SLASHED in form and (('CLEAN' in form) == clean)
-                ctx.check('C19.H1', ok, fs, node, f'{cls}.{mname} looks up `{ast.unparse(kexpr)}` (form {sorted(form)}) but the index keys have form {sorted(key_form)}: '
+                ctx.check('C19.H1', ok, fs, node, f'{cls}.{mname} looks up `{U(kexpr)}` (form {sorted(form)}) but the index keys have form {sorted(key_form)}: '
                           'names differing in case or slash style resolve differently', func=f'{cls}.{mname}', text=f'{cls}.{mname} lookup key form')
         # ---- H2/H3 on walk_folder ---------------------------------------------------------------------------
         wf = ms['walk_folder']
@@ -101,33 +102,33 @@ def run(ctx: Any, prog: Program) -> None:
         subj_is_key = False
         loops = [l for l in walk_no_nested(wf) if isinstance(l, ast.For)]
         for l in loops:
-            it = ast.unparse(l.iter)
+            it = U(l.iter)
             tgt0 = l.target.elts[0] if isinstance(l.target, ast.Tuple) else l.target
             if it in (f'self.{index}.items()', f'self.{index}', f'self.{index}.keys()') and dotted(tgt0) == dotted(subj):
                 subj_is_key = True
         sform = env.form(subj)
         pform = env.form(pref)
         ok = subj_is_key or (FOLDED in sform and SLASHED in sform)
-        ctx.check('C19.H1', ok, fs, t, f'{cls}.walk_folder tests `{ast.unparse(subj)}` which is not a normalised index key (form {sorted(sform)}): original-case names never match the folded folder',
+        ctx.check('C19.H1', ok, fs, t, f'{cls}.walk_folder tests `{U(subj)}` which is not a normalised index key (form {sorted(sform)}): original-case names never match the folded folder',
                   func=f'{cls}.walk_folder', text=f'{cls}.walk_folder subject is an index key')
-        ctx.check('C19.H1', FOLDED in pform and SLASHED in pform, fs, t, f'{cls}.walk_folder compares against `{ast.unparse(pref)}` of form {sorted(pform)}; the folder must be casefolded with forward slashes like the keys',
+        ctx.check('C19.H1', FOLDED in pform and SLASHED in pform, fs, t, f'{cls}.walk_folder compares against `{U(pref)}` of form {sorted(pform)}; the folder must be casefolded with forward slashes like the keys',
                   func=f'{cls}.walk_folder', text=f'{cls}.walk_folder folder operand form')
         # H2: separator-terminated-or-empty: look for the guarded append of '/'
-        src = ast.unparse(wf)
+        src = U(wf)
         pname = dotted(pref)
         sep_ok = False
         for n in walk_no_nested(wf):
             if isinstance(n, ast.AugAssign) and dotted(n.target) == pname and isinstance(n.op, ast.Add) and isinstance(n.value, ast.Constant) and n.value.value == '/':
                 par = fs.parents.get(n)
                 if isinstance(par, ast.If):
-                    tt = ast.unparse(par.test)
+                    tt = U(par.test)
                     if 'endswith' in tt or tt.strip() == pname:
                         sep_ok = True
-        ctx.check('C19.H2', sep_ok, fs, t, f'{cls}.walk_folder uses `{ast.unparse(t)}` without making the folder end in a separator: folder "mat" also lists "materials/..."',
+        ctx.check('C19.H2', sep_ok, fs, t, f'{cls}.walk_folder uses `{U(t)}` without making the folder end in a separator: folder "mat" also lists "materials/..."',
                   func=f'{cls}.walk_folder', text=f'{cls}.walk_folder whole-folder match')
         if clean:
             # normpath('') == '.', must be mapped back to the empty prefix
-            dot_ok = any(isinstance(n, ast.If) and ast.unparse(n.test) in (f"{pname} == '.'",) and any(isinstance(s, ast.Assign) and isinstance(s.value, ast.Constant) and s.value.value == '' for s in n.body)
+            dot_ok = any(isinstance(n, ast.If) and U(n.test) in (f"{pname} == '.'",) and any(isinstance(s, ast.Assign) and isinstance(s.value, ast.Constant) and s.value.value == '' for s in n.body)
                          for n in walk_no_nested(wf))
             ctx.check('C19.H2', dot_ok, fs, wf, f"{cls}.walk_folder normalises the folder with _clean_path, which turns '' into '.': without mapping that back iterating the filesystem yields nothing",
                       func=f'{cls}.walk_folder', text=f'{cls}.walk_folder empty folder')
@@ -138,14 +139,14 @@ def run(ctx: Any, prog: Program) -> None:
         if len(ys) != 1:
             raise AnalysisError(f'{cls}.walk_folder: expected one `yield File(...)`')
         parg = ys[0].value.args[1]
-        psrc = ast.unparse(parg)
+        psrc = U(parg)
         ok = psrc in ('filename', 'fileinfo.filename', 'file.filename', 'key') or psrc.endswith('.filename')
         ctx.check('C19.H3', ok, fs, ys[0], f'{cls}.walk_folder yields File(path={psrc}); it must be the stored file name (which the lookup normalises) or its key', func=f'{cls}.walk_folder', text=f'{cls}.walk_folder yields stored name')
     # ---- H4 ----------------------------------------------------------------------------------------------------
     ch = fs.methods('FileSystemChain')
     gf = ch['_get_file']
     loops = [l for l in walk_no_nested(gf) if isinstance(l, ast.For)]
-    ok = len(loops) == 1 and ast.unparse(loops[0].iter) == 'self.systems' and any(isinstance(n, ast.Return) for n in ast.walk(loops[0])) \
+    ok = len(loops) == 1 and U(loops[0].iter) == 'self.systems' and any(isinstance(n, ast.Return) for n in ast.walk(loops[0])) \
         and any(isinstance(h.body[0], ast.Continue) for t in ast.walk(loops[0]) if isinstance(t, ast.Try) for h in t.handlers)
     ctx.shape('C19.H4', ok, fs, gf, 'FileSystemChain._get_file must try self.systems in list order and return on the first member that has the file', func='FileSystemChain._get_file', text='first hit in list order')
     # how the prefix is put in front of the name: os.path.join keeps exactly one separator whatever the spelling of the prefix ('addon',
@@ -153,18 +154,18 @@ def run(ctx: Any, prog: Program) -> None:
     joins = [c for c in ast.walk(gf) if isinstance(c, ast.Call) and dotted(c.func) == 'os.path.join' and [dotted(a) for a in c.args] == ['prefix', 'name']]
     glued = [j for j in ast.walk(gf) if isinstance(j, ast.JoinedStr) and any(isinstance(v, ast.FormattedValue) and dotted(v.value) == 'prefix' for v in j.values)
              and any(isinstance(v, ast.FormattedValue) and dotted(v.value) == 'name' for v in j.values)] + \
-            [b for b in ast.walk(gf) if isinstance(b, ast.BinOp) and isinstance(b.op, ast.Add) and 'prefix' in ast.unparse(b) and 'name' in ast.unparse(b) and "'/'" in ast.unparse(b)]
+            [b for b in ast.walk(gf) if isinstance(b, ast.BinOp) and isinstance(b.op, ast.Add) and 'prefix' in U(b) and 'name' in U(b) and "'/'" in U(b)]
     if joins:
         ctx.check('C19.H4', True, fs, joins[0], 'os.path.join(prefix, name)', func='FileSystemChain._get_file', text='prefix joined on lookup')
     elif glued:
-        ctx.check('C19.H4', False, fs, glued[0], f'FileSystemChain._get_file builds the member name as `{ast.unparse(glued[0])[:60]}`: a prefix spelled with a trailing separator gives `addon//cfg/x`, which the in-memory member tolerates '
+        ctx.check('C19.H4', False, fs, glued[0], f'FileSystemChain._get_file builds the member name as `{U(glued[0])[:60]}`: a prefix spelled with a trailing separator gives `addon//cfg/x`, which the in-memory member tolerates '
                   'but the zip and VPK members (verbatim key lookup) do not - the chain falls through to a lower-priority member while walk_folder (os.path.join) still lists the file', func='FileSystemChain._get_file', text='prefix joined on lookup')
     else:
         ctx.shape('C19.H4', False, fs, gf, 'the member prefix must be joined in front of the looked-up name', func='FileSystemChain._get_file', text='prefix joined on lookup')
     # every loop over the members, in any chain method: the name handed to a member is prefix + the caller's name, built afresh per member
     n_loops = 0
     for mname, mfn in ch.items():
-        for lp in [l for l in walk_no_nested(mfn) if isinstance(l, ast.For) and ast.unparse(l.iter) == 'self.systems' and isinstance(l.target, ast.Tuple) and len(l.target.elts) == 2]:
+        for lp in [l for l in walk_no_nested(mfn) if isinstance(l, ast.For) and U(l.iter) == 'self.systems' and isinstance(l.target, ast.Tuple) and len(l.target.elts) == 2]:
             member, pref = (dotted(e) for e in lp.target.elts)
             n_loops += 1
             outer_defs = {a.arg for a in mfn.args.args} | {t.id for n in walk_no_nested(mfn) if isinstance(n, ast.Assign) and not any(n is x for x in ast.walk(lp)) for t in n.targets if isinstance(t, ast.Name)}
@@ -179,18 +180,18 @@ def run(ctx: Any, prog: Program) -> None:
                                 prefixed.add(t.id)
                                 if t.id in reads and t.id in outer_defs:
                                     carried = n
-            ctx.check('C19.H4', carried is None, fs, carried or lp, f'FileSystemChain.{mname}: `{ast.unparse(carried)[:80] if carried else ""}` re-assigns the looked-up name inside the member loop, so the prefix of one member '
+            ctx.check('C19.H4', carried is None, fs, carried or lp, f'FileSystemChain.{mname}: `{U(carried)[:80] if carried else ""}` re-assigns the looked-up name inside the member loop, so the prefix of one member '
                       'is still in front of the name when the next member is asked (later members miss their files, root-mounted ones report foreign names)', func=f'FileSystemChain.{mname}', text=f'{mname}: name not carried across members')
             for c in ast.walk(lp):
                 if isinstance(c, ast.Call) and isinstance(c.func, ast.Attribute) and dotted(c.func.value) == member and c.args:
                     a0 = c.args[0]
                     names = {x.id for x in ast.walk(a0) if isinstance(x, ast.Name)}
                     ok = pref in names or bool(names & prefixed)
-                    ctx.check('C19.H4', ok, fs, c, f'FileSystemChain.{mname} asks a member with `{ast.unparse(a0)[:60]}`, which does not contain that member\'s prefix', func=f'FileSystemChain.{mname}', text=f'{mname}: {member}.{c.func.attr} gets the prefixed name')
+                    ctx.check('C19.H4', ok, fs, c, f'FileSystemChain.{mname} asks a member with `{U(a0)[:60]}`, which does not contain that member\'s prefix', func=f'FileSystemChain.{mname}', text=f'{mname}: {member}.{c.func.attr} gets the prefixed name')
     if n_loops < 2:
         raise AnalysisError(f'only {n_loops} loops over self.systems found in FileSystemChain (2 confirmed by hand)')
     ads = ch['add_sys']
-    src = ast.unparse(ads)
+    src = U(ads)
     prio_param = any(a.arg == 'priority' for a in ads.args.args + ads.args.kwonlyargs)
     inserts = [c for c in ast.walk(ads) if isinstance(c, ast.Call) and dotted(c.func) == 'self.systems.insert' and len(c.args) == 2]
     appends = [c for c in ast.walk(ads) if isinstance(c, ast.Call) and dotted(c.func) == 'self.systems.append']
@@ -201,7 +202,7 @@ def run(ctx: Any, prog: Program) -> None:
         ctx.check('C19.H4', False, fs, ads, 'add_sys ignores its priority parameter: a priority member must be consulted before the existing ones', func='FileSystemChain.add_sys', text='priority insertion')
     elif len(inserts) == 1 and appends:
         idx = inserts[0].args[0]
-        ctx.check('C19.H4', isinstance(idx, ast.Constant) and idx.value == 0, fs, inserts[0], f'a priority member is inserted at position `{ast.unparse(idx)}`; lookups take the first member that has the file, so it must go to position 0',
+        ctx.check('C19.H4', isinstance(idx, ast.Constant) and idx.value == 0, fs, inserts[0], f'a priority member is inserted at position `{U(idx)}`; lookups take the first member that has the file, so it must go to position 0',
                   func='FileSystemChain.add_sys', text='priority insertion')
     else:
         ctx.shape('C19.H4', False, fs, ads, 'insert/append pair not recognised', func='FileSystemChain.add_sys', text='priority insertion')
@@ -224,10 +225,10 @@ def run(ctx: Any, prog: Program) -> None:
             return False
         folded_ = _FOLDED in aenv.form(sp_) or may_fold(sp_)
         prefix_folded_at_store |= folded_
-        ctx.check('C19.H4', not folded_, fs, sp_, f'add_sys stores the member subfolder case-folded (`{ast.unparse(sp_)[:60]}`): lookups join it in front of the name, and the directory filesystem only finds '
+        ctx.check('C19.H4', not folded_, fs, sp_, f'add_sys stores the member subfolder case-folded (`{U(sp_)[:60]}`): lookups join it in front of the name, and the directory filesystem only finds '
                   'exact-case names, so a member restricted to `Materials` no longer yields anything', func='FileSystemChain.add_sys', text='prefix stored as given')
     wr = ch['walk_folder_repeat']
-    src = ast.unparse(wr)
+    src = U(wr)
     ctx.shape('C19.H4', 'os.path.join(prefix, folder)' in src, fs, wr, 'walk must address a prefixed member inside its prefix', func='FileSystemChain.walk_folder_repeat', text='prefix joined on walk')
     # ... and report names relative to it.  The members match folder names case-insensitively, so the files found may spell the prefix
     # differently from the chain: os.path.relpath() compares case-sensitively and then answers `../Materials/x` for prefix `materials`.
@@ -244,7 +245,7 @@ def run(ctx: Any, prog: Program) -> None:
                 grew = True
 
     def folds(e: ast.AST, depth: int = 0) -> int:
-        n_ = ast.unparse(e).count('casefold()')
+        n_ = U(e).count('casefold()')
         if prefix_folded_at_store and depth == 0:
             n_ += sum(1 for x in ast.walk(e) if isinstance(x, ast.Name) and x.id == 'prefix')
         if depth < 4:
@@ -261,7 +262,7 @@ def run(ctx: Any, prog: Program) -> None:
             a = fs.parents.get(c)
             ch_ = c
             while a is not None and a is not wr:
-                if isinstance(a, ast.If) and any(ch_ is x or any(ch_ is y for y in ast.walk(x)) for x in a.orelse) and 'casefold()' in ast.unparse(a.test):
+                if isinstance(a, ast.If) and any(ch_ is x or any(ch_ is y for y in ast.walk(x)) for x in a.orelse) and 'casefold()' in U(a.test):
                     return True
                 ch_, a = a, fs.parents.get(a)
             return False
@@ -271,7 +272,7 @@ def run(ctx: Any, prog: Program) -> None:
                   text='prefix stripped case-insensitively on walk')
     ctx.shape('C19.H4', 'for sys, prefix in self.systems' in src, fs, wr, 'walk must visit members in priority order', func='FileSystemChain.walk_folder_repeat', text='walk in list order')
     wf = ch['walk_folder']
-    src = ast.unparse(wf)
+    src = U(wf)
     adds = [c for c in ast.walk(wf) if isinstance(c, ast.Call) and isinstance(c.func, ast.Attribute) and c.func.attr == 'add' and c.args and isinstance(c.args[0], ast.Name)]
     yields = [y for y in ast.walk(wf) if isinstance(y, ast.Yield) and y.value is not None]
     if len(adds) != 1 or len(yields) != 1:
@@ -280,22 +281,22 @@ def run(ctx: Any, prog: Program) -> None:
         key_name = adds[0].args[0].id
         kdef = [n.value for n in ast.walk(wf) if isinstance(n, ast.Assign) and dotted(n.targets[0]) == key_name]
         folded = bool(kdef) and isinstance(kdef[0], ast.Call) and isinstance(kdef[0].func, ast.Attribute) and kdef[0].func.attr in ('casefold', 'lower')
-        key_base = ast.unparse(kdef[0].func.value) if folded else (ast.unparse(kdef[0]) if kdef else '?')
+        key_base = U(kdef[0].func.value) if folded else (U(kdef[0]) if kdef else '?')
         # the name that is handed out
         yv = yields[0].value
         if isinstance(yv, ast.Name):
             out_path = f'{yv.id}.path'
         elif isinstance(yv, ast.Call) and dotted(yv.func) == 'File' and len(yv.args) >= 2:
-            out_path = ast.unparse(yv.args[1])
+            out_path = U(yv.args[1])
         else:
             out_path = '?'
         if not kdef or out_path == '?':
             ctx.shape('C19.H4', False, fs, wf, 'de-duplication key / yielded path not recognised', func='FileSystemChain.walk_folder', text='de-duplication on folded path')
         else:
-            ctx.check('C19.H4', folded and key_base == out_path, fs, adds[0], f'the de-duplicated walk remembers `{ast.unparse(kdef[0])}` but hands out the name `{out_path}`: the key must be the case-folded form of exactly the name '
+            ctx.check('C19.H4', folded and key_base == out_path, fs, adds[0], f'the de-duplicated walk remembers `{U(kdef[0])}` but hands out the name `{out_path}`: the key must be the case-folded form of exactly the name '
                       'that is listed (a member-local spelling or an unfolded name lets the same chain name through twice)', func='FileSystemChain.walk_folder', text='de-duplication on folded path')
     it = fs.func('FileSystem.__iter__')
-    ok = any(isinstance(r, ast.Return) and ast.unparse(r.value) == "self.walk_folder('')" for r in walk_no_nested(it))
+    ok = any(isinstance(r, ast.Return) and U(r.value) == "self.walk_folder('')" for r in walk_no_nested(it))
     ctx.shape('C19.H4', ok, fs, it, "iteration must be walk_folder('')", func='FileSystem.__iter__', text="__iter__ = walk_folder('')")
 
 
